@@ -333,6 +333,11 @@ def _session_template(rel, mixin):
               and ast.unparse(n.targets[0].value) == "self.privilege_levels"]
     if len(stores) != 1 or _parts(stores[0].targets[0].slice, env, where) != [("name",)]:
         raise TranslateError(f"{where}: the new level is not stored as self.privilege_levels[session_name]")
+    others = [ast.unparse(t) for n in ast.walk(fn) if isinstance(n, (ast.Assign, ast.AugAssign, ast.AnnAssign))
+              for t in (n.targets if isinstance(n, ast.Assign) else [n.target])
+              if not isinstance(t, ast.Name) and n is not stores[0]]
+    if others:
+        raise TranslateError(f"{where}: stores to something else than local names and self.privilege_levels[session_name]: {others}")
     guards = [n for n in fn.body if isinstance(n, ast.If) and any(isinstance(x, ast.Raise) for x in n.body)]
     if len(guards) != 1 or ast.unparse(guards[0].test) not in ("session_name in self.privilege_levels.keys()", "session_name in self.privilege_levels"):
         raise TranslateError(f"{where}: duplicate-name guard not recognised")
